@@ -43,13 +43,17 @@ structure Port where
   ty : Ty
   deriving DecidableEq, Repr
 
+/-- a local signal; `elems > 1`: an array signal (`Signal[Array[T, elems]]`) with elements of type `ty`, stored
+    flat: element `i` occupies the bits `[i * ty.width, (i+1) * ty.width)`, so that a `Ref` (and hence an actual of an
+    instance) can select an element of an array-typed signal, a slice or a bit of an element -/
 structure Local where
   name : String
   ty : Ty
   dflt : Option Nat
+  elems : Nat
   deriving DecidableEq, Repr
 
-/-- bits `[lo, lo+width)` of the signal `name` -/
+/-- bits `[lo, lo+width)` of the signal `name` (for an array signal: of its flat storage, see `Local.elems`) -/
 structure Ref where
   name : String
   lo : Nat
@@ -166,7 +170,7 @@ def bindRef (b : Binding) (r : Ref) : Ref :=
   | none => r
 
 def localBinding (pfx : String) (locals : List Local) : Binding :=
-  locals.map (fun l => (l.name, ⟨pfx ++ l.name, 0, l.ty.width⟩))
+  locals.map (fun l => (l.name, ⟨pfx ++ l.name, 0, l.ty.width * l.elems⟩))
 
 def instPrefix (pfx : String) (k : Nat) : String := pfx ++ "i" ++ toString k ++ "_"
 
